@@ -18,6 +18,8 @@ type Gen struct {
 	plain bool
 	// parCount counts the parallel programs drawn so far (every eighth gets a very large slice).
 	parCount int
+	// flowCount counts the well-formed flows drawn so far (every fourth is listed consumers first).
+	flowCount int
 }
 
 // New returns a generator for the seed.
@@ -222,7 +224,59 @@ func (g *Gen) WellFormedFlow(pid int) *ps.Program {
 	g.flowOpts(p)
 	g.forms(p)
 	g.order(p)
+	g.flowCount++
+	if g.flowCount%4 == 3 {
+		consumerFirst(p)
+	}
 	return p
+}
+
+// consumerFirst rewrites a flow into the listing that is hardest for an emission order computed by a
+// graph walk: tasks are listed consumers first (deepest first), and every function names its most
+// derived input first — so a function reaches a provider both directly and through another input
+// (a shortcut edge beside a longer path), starting from the consumer.
+func consumerFirst(p *ps.Program) {
+	depth := map[int]int{} // type -> length of the longest provider chain
+	for _, x := range p.Params {
+		depth[x] = 0
+	}
+	tdepth := map[int]int{}
+	for _, t := range p.Tasks { // tasks are generated providers-first
+		d := 0
+		for _, x := range append(append([]int{}, t.Ins...), t.PIns...) {
+			if depth[x]+1 > d {
+				d = depth[x] + 1
+			}
+		}
+		tdepth[t.K] = d
+		for _, x := range t.Outs {
+			depth[x] = d
+		}
+	}
+	byDepth := func(xs []int) {
+		if len(xs) == 3 && xs[0] == xs[1] { // the repeated-type shapes keep their order
+			return
+		}
+		sort.SliceStable(xs, func(i, j int) bool { return depth[xs[i]] > depth[xs[j]] })
+	}
+	for _, t := range p.Tasks {
+		byDepth(t.Ins)
+		byDepth(t.PIns)
+	}
+	// permute the task tokens of the listing among their own positions, deepest first
+	var pos []int
+	var ks []int
+	for i, tk := range p.Order {
+		if n, id := ps.SplitTok(tk); n == "task" {
+			pos = append(pos, i)
+			ks = append(ks, id)
+		}
+	}
+	sort.SliceStable(ks, func(i, j int) bool { return tdepth[ks[i]] > tdepth[ks[j]] })
+	for i, at := range pos {
+		p.Order[at] = fmt.Sprintf("task:%d", ks[i])
+	}
+	FillPos(p)
 }
 
 func contains(xs []int, x int) bool {
